@@ -372,13 +372,19 @@ class RealEncoder(AbstractItemEncoder):
 
         m *= ms
 
-        if encbase == 8:
-            m *= 2 ** (abs(e) % 3 * es)
-            e = abs(e) // 3 * es
+        if encbase in (8, 16):
+            bits = encbase == 8 and 3 or 4
+            shift = abs(e) % bits * es
+            e = abs(e) // bits * es
 
-        elif encbase == 16:
-            m *= 2 ** (abs(e) % 4 * es)
-            e = abs(e) // 4 * es
+            if shift < 0 and int(m) == m:
+                # borrow one digit of the new base instead of dividing:
+                # an integral mantissa stays exact whatever its size
+                m = int(m) * 2 ** (bits + shift)
+                e -= 1
+
+            else:
+                m *= 2 ** shift
 
         while True:
             if int(m) != m:
